@@ -42,6 +42,7 @@ def advance_sites(ctx, txalloc):
     Meta.num_pages, or a call of a local helper (same type) that stores it"""
     F = ctx.facts
     out = []
+    txalloc = ctx.A.xf(txalloc)        # module-private helpers (reserve_page_ids ...) folded in
     du = ctx.du(txalloc)
     for bb, si, s in stores_to_field(txalloc, 'Meta', 'num_pages'):
         _, atoms = du.slice_operand(s['rv']['op']) if s['rv']['k'] == 'use' else (None, set())
@@ -93,9 +94,9 @@ def cow_write_set(ctx):
     # (c) only the alloc wrapper inserts into TxFreelist.pages
     inserters = []
     for f in ctx.facts.fns:
-        if f.kind == 'Closure':
+        if f.kind == 'Closure' or (ctx.A.module_private(f) and ctx.facts.callers(f)):
             continue
-        how = effects_on(ctx.facts, f, 'TxFreelist', 'pages')
+        how = effects_on(ctx.facts, ctx.A.xf(f), 'TxFreelist', 'pages')
         if how & (INSERTING - {'store-via-ptr'}):
             inserters.append(f)
     for f in inserters:
@@ -107,6 +108,8 @@ def cow_write_set(ctx):
         res.append(bad(rule, '%s | alloc wrapper does not insert' % txalloc.qual, 'the allocation wrapper no longer records pages in TxFreelist.pages',
                        where='%s:%d' % (txalloc.file, txalloc.line)))
     # (d) the page id it inserts comes from the free set's alloc-role or from the high-water mark, which it then advances
+    txalloc_raw = txalloc
+    txalloc = ctx.A.xf(txalloc)
     du = ctx.du(txalloc)
     ins = [(bb, t) for bb, t, c in calls_named(ctx.facts, txalloc, 'BTreeMap::insert', 'BTreeMap::entry', 'BTreeMap::try_insert')
            if has_field(du.slice_operand(t['args'][0])[1], 'TxFreelist', 'pages')]
@@ -115,7 +118,7 @@ def cow_write_set(ctx):
     for bb, t in ins:
         _, atoms = du.slice_operand(t['args'][1])
         from_alloc = has_call(atoms, alloc.path)
-        helpers = {x[4].path for x in advance_sites(ctx, txalloc) if x[4] is not None}
+        helpers = {x[4].path for x in advance_sites(ctx, txalloc_raw) if x[4] is not None}
         from_hw = has_field(atoms, 'Meta', 'num_pages') or any(a[0] == 'call' and a[2] in helpers for a in atoms)
         consts = [a for a in atoms if a[0] == 'const']
         if from_alloc and from_hw:
@@ -124,7 +127,7 @@ def cow_write_set(ctx):
             res.append(bad(rule, '%s | page id source' % txalloc.qual,
                            'the page id recorded at %s does not depend on both the free-set allocation (%s) and the high-water mark '
                            '(found: alloc=%s, num_pages=%s)' % (txalloc.loc(bb), alloc.qual, from_alloc, from_hw), where=txalloc.loc(bb)))
-    adv = advance_sites(ctx, txalloc)
+    adv = advance_sites(ctx, txalloc_raw)
     if not adv:
         res.append(bad(rule, '%s | high-water mark not advanced' % txalloc.qual,
                        'the allocation wrapper takes pages from the high-water mark but never advances Meta.num_pages: '
@@ -148,10 +151,10 @@ def cow_free_set(ctx, rule='C02.cow.free-set'):
     F = ctx.facts
     n = 0
     for f in F.fns:
-        if f.kind == 'Closure':
-            continue
-        fp = effects_on(F, f, 'Freelist', 'free_pages')
-        pp = effects_on(F, f, 'Freelist', 'pending_pages')
+        if f.kind == 'Closure' or (ctx.A.module_private(f) and F.callers(f)):
+            continue          # a module-private helper is judged as part of each of its callers (folded in below)
+        fp = effects_on(F, ctx.A.xf(f), 'Freelist', 'free_pages')
+        pp = effects_on(F, ctx.A.xf(f), 'Freelist', 'pending_pages')
         if fp & INSERTING:
             n += 1
             if f not in (rel, ini):
@@ -164,6 +167,13 @@ def cow_free_set(ctx, rule='C02.cow.free-set'):
             if f is not fre:
                 res.append(bad(rule, '%s | inserts into Freelist.pending_pages' % f.qual,
                                '%s files pages as pending; only the free role (%s) may' % (f.qual, fre.qual), where='%s:%d' % (f.file, f.line)))
+        mut_access = pp & {'get_mut', 'iter_mut', 'values_mut', 'index_mut', 'range_mut', 'first_mut', 'last_mut', 'get_many_mut', 'get_or_insert_with'}
+        if mut_access and f is not fre:
+            n += 1
+            res.append(bad(rule, '%s | rewrites an existing pending entry (%s)' % (f.qual, ','.join(sorted(mut_access))),
+                           '%s takes a mutable reference to an existing entry of Freelist.pending_pages (%s): pages are filed under the id of the transaction that freed them by the free '
+                           'role (%s) only; moving or adding pages under another transaction\'s id lets them be released while a reader that needs them is still open'
+                           % (f.qual, ', '.join(sorted(mut_access)), fre.qual), where='%s:%d' % (f.file, f.line)))
         if fp & REMOVING and f is not alo:
             n += 1
             res.append(bad(rule, '%s | removes from Freelist.free_pages' % f.qual,
@@ -195,6 +205,30 @@ def cow_free_set(ctx, rule='C02.cow.free-set'):
     return res
 
 
+def _calls_incl_closures(ctx, fn, callee):
+    """[(host fn, bb, term)] calls of `callee` in fn or in the closures fn creates"""
+    F = ctx.facts
+    out = [(fn, bb, t) for bb, t, c in calls_to_fn(F, fn, callee)]
+    for g in F.fn_refs(fn):
+        if g.kind == 'Closure':
+            out += [(g, bb, t) for bb, t, c in calls_to_fn(F, g, callee)]
+    return out
+
+
+def _capture_atoms(ctx, creator, closure):
+    """atoms of everything the creator captured for `closure` (the operands of the closure aggregate)"""
+    du = ctx.du(creator)
+    locs, atoms = set(), set()
+    for bb in creator.reachable_blocks():
+        for st in creator.blocks[bb]['stmts']:
+            if st['k'] == 'assign' and st['rv']['k'] == 'agg' and st['rv'].get('ak') == 'closure' and st['rv'].get('closure') == closure.path:
+                for o in st['rv']['ops']:
+                    l2, a2 = du.slice_operand(o)
+                    locs |= l2
+                    atoms |= a2
+    return locs, atoms
+
+
 def pending_key(ctx, rule='C02.pending-key'):
     res = []
     try:
@@ -202,6 +236,8 @@ def pending_key(ctx, rule='C02.pending-key'):
     except AnchorError as e:
         return [unresolved(rule, str(e))]
     F = ctx.facts
+    fre_raw, txfre_raw = fre, txfre
+    fre, txfre = ctx.A.xf(fre), ctx.A.xf(txfre)
     du = ctx.du(fre)
     keyed = 0
     for bb, t, c in calls_named(F, fre, 'BTreeMap::entry', 'BTreeMap::insert', 'BTreeMap::get_mut'):
@@ -220,22 +256,28 @@ def pending_key(ctx, rule='C02.pending-key'):
         res.append(floor(rule, 'keyed insertion into pending_pages', 0, 1))
     # the wrapper passes the transaction id carried in the writer's Meta
     du2 = ctx.du(txfre)
-    sites = calls_to_fn(F, txfre, fre)
+    sites = _calls_incl_closures(ctx, txfre, fre_raw)
     if not sites:
         res.append(floor(rule, 'calls of the free role from the transaction wrapper', 0, 1))
-    for bb, t, c in sites:
+    for hostfn, bb, t in sites:
         idx = None
         # which argument reaches the key: the one whose parameter index was found above -> take all non-receiver args
         okk = False
+        du2 = ctx.du(hostfn)
         for a in t['args'][1:]:
             _, atoms = du2.slice_operand(a)
+            if hostfn.kind == 'Closure':
+                # a captured value: follow the upvar back to what the creator captured
+                ups = {x[1] for x in atoms if x[0] == 'arg'} | {1}
+                _, atoms2 = _capture_atoms(ctx, txfre, hostfn)
+                atoms = set(atoms) | atoms2
             if has_field(atoms, 'Meta', 'tx_id'):
                 okk = True
         if okk:
-            res.append(ok(rule, 'free at %s files pages under the transaction id of the writer\'s Meta' % txfre.loc(bb), sites=1))
+            res.append(ok(rule, 'free at %s files pages under the transaction id of the writer\'s Meta' % hostfn.loc(bb), sites=1))
         else:
             res.append(bad(rule, '%s | key not from Meta.tx_id' % txfre.qual,
-                           'the transaction id passed to the free role at %s does not come from the writer\'s Meta.tx_id' % txfre.loc(bb), where=txfre.loc(bb)))
+                           'the transaction id passed to the free role at %s does not come from the writer\'s Meta.tx_id' % hostfn.loc(bb), where=hostfn.loc(bb)))
     return res
 
 
@@ -390,6 +432,9 @@ def run(ctx, tier):
     import c12
     results += c12.select_total(ctx, rule='C02.select')
     results += c12.checksum_total(ctx, rule='C02.checksum-total')
+    results += c12.validate_before_trust(ctx, rule='C02.validate-before-trust')
+    import c15
+    results += c15.legacy_fallback(ctx, rule='C02.legacy-conversion')
     return dict(
         results=results,
         stats=dict(ctx.stats),
